@@ -7,7 +7,14 @@ schedule.complete; abstract calendar + the Gregorian instance).
 Implementation side: tools/harness/drive_chron.py runs the real chronicle on
 real files in a temp data_dbs with frozen clocks; observations are compared
 with the model (correspondence) and with a brute-force filter of everything
-appended (oracle = the property, independent of the model).'''
+appended (oracle = the property, independent of the model).
+
+Composition with the scheduler (C03/C05): Model/SchedChron.v feeds every
+history-entry output of Model/Sched.v, with a clock reading per event, to
+Chron.complete; tools/harness/drive_schedchron.py runs the same scheduler
+histories on the real schedule/farm with the REAL chronicle writing files in a
+temp directory under an injected clock and reads the journal back with the
+real find (composition_study below).'''
 import datetime as dt
 import json
 import random
@@ -16,9 +23,9 @@ from vlib import core
 
 PID = 'C18'
 META = {
-    'text': 'Theorems (unbounded: every history of appends, every completion time, every window and limit, every calendar obeying three interval laws) over an executable Gallina model of chronicle.append/_load/find and of the chronicle call of schedule.complete: an append adds exactly one copy of the entry to its (day, run id) file and preserves every file in order; complete appends exactly one entry carrying the reply data; find(after, before) is a permutation of the recorded entries of the requested status with after < completed < before, sorted newest first; find(before, limit) and find(limit) return the first limit entries of that list with after = 1980-01-01 (resp. before = now); the day walk never runs out of fuel; df_model_statistics (the front-end consumer of the history) reports the run with the highest id among the recorded failed/succeeded entries of the node completed since boot, its latest completion and its outcome (C18_stats). Tied to the real code by correspondence on real files in a temp directory with frozen clocks (day, month, year boundaries, 29 Feb; bounds at arbitrary times of day) and by a brute-force window oracle on the implementation; the real fe.api.df_model_statistics and fe.api.schedule.failed/succeeded run between the queries and every answer is relabelled in place as the front end does, so that answers sharing state with the journal are noticed.',
-    'note': 'Trusted: Coq kernel; hand model Model/Chron.v + correspondence driver (temp directory, frozen clocks, stand-in job for schedule.complete); tick/name-code conversion and the brute-force oracle in props/C18.py; the Gregorian calendar instance satisfies the three laws (checked by vm_compute for 1980..2100, tested against the real directory walk); CPython sort stability, os.listdir, json. Not covered: crash during the JSON rewrite, concurrent appenders; find(after, limit) without before (documented to return the oldest entries, returns the oldest of the newest days: modelled as is, outside the property statement).',
-    'technique': 'Coq proof over hand model (fuelled walk, permutation + sortedness); model/implementation correspondence on real files; brute-force specification oracle',
+    'text': 'Theorems (unbounded: every history of appends, every completion time, every window and limit, every calendar obeying three interval laws) over an executable Gallina model of chronicle.append/_load/find and of the chronicle call of schedule.complete: an append adds exactly one copy of the entry to its (day, run id) file and preserves every file in order; complete appends exactly one entry carrying the reply data; find(after, before) is a permutation of the recorded entries of the requested status with after < completed < before, sorted newest first; find(before, limit) and find(limit) return the first limit entries of that list with after = 1980-01-01 (resp. before = now); the day walk never runs out of fuel; df_model_statistics (the front-end consumer of the history) reports the run with the highest id among the recorded failed/succeeded entries of the node completed since boot, its latest completion and its outcome (C18_stats). COMPOSED with the scheduler model (Model/SchedChron.v = Sched.step events with a clock reading each, every history-entry output fed to Chron.complete; state = scheduler state x journal), for every engine graph, every scheduler history from boot, every clock and every coding of names: the journal equals, as a sequence, the journal of the replies the scheduler applied (a reply is applied iff its job is still queued when it arrives), appended in completion order with run id, target, task, status of the reply and the clock reading of its event; file by file in completion order; no entry duplicated, none without such a reply; event by event: an applied reply has exactly one entry, a reply that finds no job (output ODropped, the open finding C03 reply-dropped) and every non-reply event have none, a reply whose unit is still counted as doing is always applied (C18_every_run_recorded_once); in clean histories (no purge of an executing dependent) the journal is the journal of ALL replies (C18_every_reply_recorded_clean); without the exception clause the statement is refuted by the C03 witness with a clock (C18_dropped_reply_unrecorded: a unit a worker executed and answered has no entry); find over that journal returns exactly the applied replies of the requested outcome completed inside the window, newest first / the newest limit of them (C18_find_returns_applied), and with a strictly increasing clock the answer is, as a list, the reverse completion order of those replies (C18_find_returns_applied_in_order). Tied to the real code by correspondence on real files in a temp directory with frozen clocks (day, month, year boundaries, 29 Feb; bounds at arbitrary times of day) and by a brute-force window oracle on the implementation; the real fe.api.df_model_statistics and fe.api.schedule.failed/succeeded run between the queries and every answer is relabelled in place as the front end does, so that answers sharing state with the journal are noticed; the composition is tied by scheduler histories (corpus scenarios incl. the reply-dropped witness + generated ones) run on the real schedule/farm with the REAL chronicle writing under an injected clock (repeated readings, day/month/year crossings, clock set back), the files read back and queried with the real find, compared with the combined model and with an oracle computed from the implementation\'s own queue observations.',
+    'note': 'Trusted: Coq kernel; hand models Model/Chron.v, Model/Sched.v, Model/SchedChron.v + correspondence drivers (temp directory, frozen clocks, stand-in job for schedule.complete; drive_schedchron.py reuses drive_sched.py with the real chronicle.append put back, clock and changeset stamped per event); tick/name-code conversion and the brute-force oracles in props/C18.py; the Gregorian calendar instance satisfies the three laws (checked by vm_compute for 1980..2100, tested against the real directory walk); CPython sort stability, os.listdir, json. Open finding seen from C18: a reply dropped by Hand._res (C03 reply-dropped, cause purge-cleared-doing) leaves a completed run without journal entry; it is the stated exception clause of C18_every_run_recorded_once, proved to occur (C18_dropped_reply_unrecorded) and replayed on the real code on every run (noted in the evidence; printed as KNOWN-FINDING once known_findings.json carries a C18 entry kind=run-not-recorded match cause=reply-dropped). Not covered: crash during the JSON rewrite, concurrent appenders; the in-memory suc/err lists of schedule.complete; find(after, limit) without before (documented to return the oldest entries, returns the oldest of the newest days: modelled as is, outside the property statement).',
+    'technique': 'Coq proof over hand model (fuelled walk, permutation + sortedness; composition by simulation of the scheduler run: journal = fold of append over the applied replies); model/implementation correspondence on real files incl. scheduler histories with the real chronicle under an injected clock; brute-force specification oracle',
 }
 
 EPOCH = dt.datetime(1980, 1, 1, tzinfo=dt.UTC)
@@ -515,7 +522,14 @@ def run(ctx):
         'tied sort keys; queries: windows whose bounds sit on/next to entries at '
         'arbitrary times of day, before+limit, limit only (clock = now), after '
         'only, after+limit, limit <= 0, no argument; non-trivial = both bounds '
-        'not at midnight and entries on >= 2 days'
+        'not at midnight and entries on >= 2 days. Composition: the 6 directed '
+        'scenarios of corpus/sched (incl. the reply-dropped witness) and random '
+        'engines x random scheduler histories of ~60 events (replies in any order, '
+        're-requests of units in flight, failures/invalid outcomes) with one clock '
+        'reading per event (gaps 0 .. days, start near a day/month/year boundary, '
+        'now and then set back), four target-name sets (string order of __all__ '
+        'differs); 8-10 find queries per history with bounds on/next to the '
+        'readings; non-trivial = >= 3 applied replies recorded on >= 2 days'
     )
     ctx.trust(
         'hand model coq/Model/Chron.v of chronicle.append/_load/find and of the '
@@ -528,12 +542,20 @@ def run(ctx):
         '(vm_compute check 1980..2100 in Props/C18.v, sampled against the real walk)',
         'CPython list.sort stability with reverse=True; json round trip; isoformat '
         'strings of UTC datetimes order like the instants',
+        'hand models coq/Model/Sched.v (pl/schedule.py + pl/farm.py, tied by C01-C05/C11) and '
+        'coq/Model/SchedChron.v (which outputs reach chronicle.append, with which clock reading)',
+        'tools/harness/drive_schedchron.py: drive_sched.py (fake transports, fsm stub, db.next/'
+        'targets, in-memory AE) with the REAL chronicle.append put back; clock '
+        '(schedule.datetime.datetime.now during replies, chronicle.datetime.now for find) and '
+        'context.git_rev = c<event index> stamped per event through the event source',
     )
     ctx.assume(
         'all completion times are UTC datetimes (schedule.complete uses '
         'datetime.now(UTC)); the day directory is the UTC date of the entry',
         'the chronicles tree is only written by chronicle.append (no stray '
         'directories), one appender at a time, no crash inside the JSON rewrite',
+        'Twisted delivers callbacks of one reactor atomically: a reply is handled (and its entry '
+        'written) as one step; the clock is read once per reply (schedule.complete)',
     )
     fp = {}
     fp.update(core.fingerprint('Python/dawgie/pl/logger/chronicle.py',
@@ -542,6 +564,12 @@ def run(ctx):
     fp.update(core.fingerprint('Python/dawgie/fe/api/__init__.py', ['df_model_statistics']))
     fp.update({'api.' + k: v for k, v in core.fingerprint(
         'Python/dawgie/fe/api/schedule.py', ['failed', 'succeeded']).items()})
+    fp.update({'farm.' + k: v for k, v in core.fingerprint(
+        'Python/dawgie/pl/farm.py', ['Hand._res']).items()})
+    fp.update({'farm.' + k: v for k, v in core.fingerprint(
+        'Python/dawgie/pl/farm.py', ['Hand._translate']).items()})
+    fp.update({'schedule.' + k: v for k, v in core.fingerprint(
+        'Python/dawgie/pl/schedule.py', ['find']).items()})
     ctx.note('fingerprints', fp)
     escalate = fp != EXPECTED_FP
     ctx.note('escalated_by_fingerprint', escalate)
@@ -816,4 +844,7 @@ EXPECTED_FP = {
     'api.failed': '1a70414eaef554b4',
     'api.succeeded': '1a1dcc843bc5a858',
     'df_model_statistics': 'deef049c933606b0',
+    'farm.Hand._res': 'a4e0a9cdcdd6f358',
+    'farm.Hand._translate': 'c036f92d5de77b2b',
+    'schedule.find': '2f9745f0f1b37a1a',
 }
